@@ -551,6 +551,8 @@ func show(v *variants.Variant) string {
 	return fmt.Sprintf("type %d %s", t, sx.Text(p))
 }
 
+var c01TokenCalc *calculator.ExpressionCalculator
+
 func runC01(in sx.SX) (sx.SX, string) {
 	l := sx.AsList(in)
 	text := sx.AsString(l[0])
@@ -602,6 +604,42 @@ func runC01(in sx.SX) (sx.SX, string) {
 			}
 			if sx.Text(wantObs) != sx.Text(obs) {
 				fail = fmt.Sprintf("the calculator evaluated %s, the syntax tree denotes %s", sx.Text(obs), sx.Text(wantObs))
+			}
+		}
+	}
+	// ---- the two ways of giving a calculator its expression: a token list, then the text those tokens spell ----
+	// (one calculator object lives through the whole run; after SetOriginalTokens(tokens of this text) its Expression() is the
+	// text the tokens spell - string constants without their quotes - and SetExpression of THAT text must be parsed as text)
+	if fail == "" && len(text) < 400 {
+		fp := parsers.NewExpressionParser()
+		if fp.ParseString(text) == nil && len(fp.OriginalTokens()) > 0 {
+			if c01TokenCalc == nil {
+				c01TokenCalc = calculator.NewExpressionCalculator()
+				c01TokenCalc.SetVariantOperations(recOps{})
+				c01TokenCalc.SetAutoVariables(false)
+			}
+			c01TokenCalc.SetOriginalTokens(fp.OriginalTokens())
+			composed := c01TokenCalc.Expression()
+			fresh := calculator.NewExpressionCalculator()
+			fresh.SetVariantOperations(recOps{})
+			fresh.SetAutoVariables(false)
+			e1, e2 := c01TokenCalc.SetExpression(composed), fresh.SetExpression(composed)
+			if (e1 == nil) != (e2 == nil) {
+				fail = fmt.Sprintf("after SetOriginalTokens(tokens of this text), SetExpression(%s) on the same calculator: %v; on a new calculator: %v", sx.Quote(composed), e1, e2)
+			} else if e1 == nil {
+				mk := func() *variables.VariableCollection {
+					vars := variables.NewVariableCollection()
+					for _, b := range sx.AsList(l[2]) {
+						bb := sx.AsList(b)
+						vars.Add(variables.NewVariable(sx.AsString(bb[0]), leafVariant(bb[1])))
+					}
+					return vars
+				}
+				r1, x1 := c01TokenCalc.EvaluateUsingVariablesAndFunctions(mk(), recFuncs{})
+				r2, x2 := fresh.EvaluateUsingVariablesAndFunctions(mk(), recFuncs{})
+				if (x1 == nil) != (x2 == nil) || (x1 == nil && r1 != nil && r2 != nil && sx.Text(renderValue(r1)) != sx.Text(renderValue(r2))) {
+					fail = fmt.Sprintf("after SetOriginalTokens(tokens of this text), SetExpression(%s) on the same calculator evaluates differently from a new calculator given that text", sx.Quote(composed))
+				}
 			}
 		}
 	}
